@@ -61,6 +61,10 @@ def pick_spell(rng):
     return s + NNAMES if rng.random() < 0.2 else s
 SPELL_BASE = 500
 NOBJ = 4
+# objects 5, 6, 7 are the Python values 1, True, 1.0: equal but not identical.  Only 1 is ever bound to a
+# spelling (X, in some modules); True and 1.0 only occur as values given to annotate on ONE function, so
+# that the model's equality on numbers stays Python's equality on everything two signatures can compare.
+NUM = {5: '1', 6: 'True', 7: '1.0'}
 MODES = ('e', 'p', 'x')
 NBASE = 3          # modules 0..2 hold plain functions, 3..4 hold forwarding wrappers
 NMOD = 5
@@ -163,12 +167,14 @@ class World(object):
                     '    def __repr__(self):\n        return "v%d" % self.n\n')
             for i in range(1, NOBJ + 1):
                 f.write('v%d = V(%d)\n' % (i, i))
+            for i, txt in sorted(NUM.items()):
+                f.write('v%d = %s\n' % (i, txt))
         importlib.invalidate_caches()
         self.vals = importlib.import_module(vals)
         self.modnames.append(vals)
-        self.obj = {i: getattr(self.vals, 'v%d' % i) for i in range(1, NOBJ + 1)}
+        self.obj = {i: getattr(self.vals, 'v%d' % i) for i in list(range(1, NOBJ + 1)) + sorted(NUM)}
         self.obj_id = {id(o): i for i, o in self.obj.items()}
-        for i in range(NNAMES):
+        for i in range(len(SPELL)):
             self.obj[SPELL_BASE + i] = SPELL[i]
         for mode in MODES:
             self._build(mode)
@@ -341,6 +347,8 @@ def gen_world(rng, nfam=14, nrand=10, ninner=10, nwrap=24, ntpl=10, nrehome=12, 
     if bindings[1][0] == bindings[0][0]:
         bindings[1][0] = bindings[0][0] % NOBJ + 1
     bindings[2][1] = bindings[0][0]
+    for m in rng.sample(range(NMOD), 2):
+        bindings[m][3] = 5          # X = 1 (the int), see NUM
     funcs = []
     fid = itertools.count(100)
 
@@ -405,6 +413,27 @@ def gen_world(rng, nfam=14, nrand=10, ninner=10, nwrap=24, ntpl=10, nrehome=12, 
     return World(bindings, funcs)
 
 
+def given_value(rng, world, f, sp, single):
+    """a value for modifiers.annotate over a parameter / return annotation spelled sp (or
+    None): often one that compares EQUAL to what is already there without being it --
+    the string spelled exactly like the syntax annotation (equal to the raw annotation of
+    a future-flag function), or True / 1.0 over the int 1 (only when no second signature
+    is involved, see NUM)"""
+    if sp is not None and rng.random() < 0.5:
+        if single and world.truth(f, sp) == 5 and rng.random() < 0.7:
+            return rng.choice([6, 7])
+        return SPELL_BASE + sp
+    return rng.randint(1, NOBJ)
+
+
+def given_anns(rng, world, f, k, single):
+    byname = {p[0]: p[3] for p in f['params']}
+    ns = sorted(byname)
+    # prefer parameters that already carry an annotation
+    ns.sort(key=lambda x: (byname[x] is None, rng.random()))
+    return [[x, given_value(rng, world, f, byname[x], single)] for x in ns[:rng.randint(0, min(k, len(ns)))]]
+
+
 def gen_cases(rng, world, n):
     fs = list(world.funcs.values())
     groups = {}
@@ -463,10 +492,9 @@ def gen_cases(rng, world, n):
             i = rng.choice(groups['C'])
             return {'op': 'forwards', 'f': [b_, i['fid']], 'prime': [a], 'n': 0, 'names': [],
                     'ha': False, 'hk': False, 'uva': True, 'uvk': True, 'partial': False}
-        ns = [p[0] for p in f['params']]
-        anns = [[x, rng.randint(1, NOBJ)] for x in rng.sample(ns, rng.randint(0, min(1, len(ns))))]
+        anns = given_anns(rng, world, f, 1, True)
         return {'op': 'annot', 'f': [b_], 'prime': [a], 'anns': anns,
-                'retv': rng.randint(1, NOBJ) if not anns else None}
+                'retv': given_value(rng, world, f, f['ret'], True) if not anns else None}
 
     def wraps_case():
         """a wraps-wrapper through signatures.signature, sigtools.signature and the algebra"""
@@ -505,9 +533,8 @@ def gen_cases(rng, world, n):
             continue
         if rng.random() < 0.06:
             w = rng.choice(groups['W'])
-            ns = [p[0] for p in w['params']]
-            anns = [[x, rng.randint(1, NOBJ)] for x in rng.sample(ns, rng.randint(0, min(2, len(ns))))]
-            retv = rng.randint(1, NOBJ) if rng.random() < 0.5 or not anns else None
+            anns = given_anns(rng, world, w, 2, False)
+            retv = given_value(rng, world, w, w['ret'], False) if rng.random() < 0.5 or not anns else None
             c = {'op': 'annauto', 'f': [w['fid']], 'anns': anns, 'retv': retv}
             pks = [p[0] for p in w['params'] if p[1] == 'PK']
             if pks and rng.random() < 0.3:
@@ -558,20 +585,61 @@ def gen_cases(rng, world, n):
         elif k < 0.92:
             fids = related(2)
             f = world.funcs[fids[0]]
-            ns = [p[0] for p in f['params']]
-            anns = [[x, rng.randint(1, NOBJ)] for x in rng.sample(ns, rng.randint(0, min(2, len(ns))))]
-            retv = rng.randint(1, NOBJ) if rng.random() < 0.5 or not anns else None
+            single = rng.random() < 0.5
+            anns = given_anns(rng, world, f, 2, single)
+            retv = given_value(rng, world, f, f['ret'], single) if rng.random() < 0.5 or not anns else None
             c = {'op': 'annot', 'f': [fids[0]], 'anns': anns, 'retv': retv}
-            if rng.random() < 0.5:
+            if not single:
                 c['f'].append(fids[1])
             cases.append(c)
         else:
             cases.append({'op': 'auto', 'f': [rng.choice(groups['W'])['fid']]})
+    # the names the annotations spell are bound (or bound to what they finally denote) only AFTER the
+    # signatures were retrieved: see impl_call
+    for c in cases:
+        if rng.random() < 0.12:
+            c['late'] = rng.choice(['unbound', 'stale'])
     return cases
 
 
 # ---------------------------------------------------------------- implementation side
 def impl_call(world, case, mode):
+    """With case['late']: while the operation runs -- explicit retrieval by signatures.signature /
+    sigtools.signature, decoration-time retrieval by kwoargs / posoargs / annotate, every
+    combination -- the spellings are not bound yet ('unbound': a forward reference) or still bound
+    to something else ('stale') in the globals of every function involved; the final bindings are
+    made afterwards, before anything is evaluated.  A postponed annotation denotes what its spelling
+    is bound to in the defining globals WHEN IT IS EVALUATED (the code evaluates lazily in the live
+    __globals__), so answers, model and oracle are those of the same case without 'late'; eager
+    functions evaluated their annotations when they were defined and are not concerned."""
+    if not case.get('late'):
+        return impl_call_now(world, case, mode)
+    F = world.objs[mode]
+    spaces = {}
+    for f in all_fids(world, case):
+        fn = F[f]
+        glob = getattr(fn, '__globals__', None)
+        if glob is not None:
+            spaces[id(glob)] = glob
+    saved = []
+    for glob in spaces.values():
+        for i in range(NNAMES):
+            nm = SPELL[i]
+            if nm in glob:
+                saved.append((glob, nm, glob[nm]))
+                if case['late'] == 'unbound':
+                    del glob[nm]
+                else:
+                    glob[nm] = world.obj[1 + (i + 1) % NOBJ] if glob[nm] is not world.obj[1 + (i + 1) % NOBJ] \
+                        else world.obj[1 + (i + 2) % NOBJ]
+    try:
+        return impl_call_now(world, case, mode)
+    finally:
+        for glob, nm, val in saved:
+            glob[nm] = val
+
+
+def impl_call_now(world, case, mode):
     F = world.objs[mode]
     fs = case['f']
     op = case['op']
@@ -1051,7 +1119,7 @@ def vname(v):
         return 'empty'
     if v >= SPELL_BASE:
         return 'the string %r' % SPELL[v - SPELL_BASE] if v - SPELL_BASE < len(SPELL) else '<%d>' % v
-    return 'v%d' % v
+    return NUM.get(v, 'v%d' % v)
 
 
 def observe(ans):
@@ -1115,7 +1183,7 @@ def show_case(world, case):
             sib += ', functools.%s around f%d (defined in module %d)' % (sp['wraps']['how'], sp['wraps']['of'], sp['wraps']['cmod'])
         return 'f%d = ' % fid + fn_source(sp, {m: 'cm%d' % m for m in range(NMOD)}).split(':\n')[0].replace('\n', ' ') + \
             '  [globals %d: %s%s]' % (sp['mod'], ', '.join(
-                '%s=v%d' % (SPELL[s], o) for s, o in sorted(world.bindings[sp['mod']].items()) if s < NNAMES), sib)
+                '%s=%s' % (SPELL[s], vname(o)) for s, o in sorted(world.bindings[sp['mod']].items()) if s < NNAMES), sib)
     extra = {k: v for k, v in case.items() if k not in ('f', 'op', 'prime')}
     fids = list(case['f'])
     if case['op'] in ('auto', 'annauto'):
